@@ -24,6 +24,15 @@ SPECIAL = [
                                       "e": {"enum": ["z", "a", "m"]}, "f": {"type": "string", "enum": ["zz", "aa"]}, "p": {"type": "string", "pattern": "^a"},
                                       "n": {"type": "number", "multipleOf": 0.5}, "o": {"type": "object", "additionalProperties": {"type": "string"}, "properties": {"k": {"type": "string"}}}},
      "required": ["t", "e", "p"]},
+    # several structurally identical definitions, and an inline type whose derived name is taken by a different definition (the file is s.json: root type SJson)
+    {"type": "object", "$defs": {"Point": {"type": "object", "properties": {"x": {"type": "number"}, "y": {"type": "number"}}},
+                                 "Vector": {"type": "object", "properties": {"x": {"type": "number"}, "y": {"type": "number"}}},
+                                 "Offset": {"type": "object", "properties": {"x": {"type": "number"}, "y": {"type": "number"}}},
+                                 "SJsonOrigin": {"type": "object", "properties": {"label": {"type": "string"}}}},
+     "properties": {"anchor": {"$ref": "#/$defs/Point"}, "from": {"$ref": "#/$defs/Vector"}, "shift": {"$ref": "#/$defs/Offset"}, "named": {"$ref": "#/$defs/SJsonOrigin"},
+                    "origin": {"type": "object", "properties": {"x": {"type": "number"}, "y": {"type": "number"}}},
+                    "list": {"type": "array", "items": {"type": "object", "properties": {"x": {"type": "number"}, "y": {"type": "number"}}}},
+                    "listElem": {"type": "object", "properties": {"z": {"type": "string"}}}}},
     {"type": "object", "properties": {"u": {"allOf": [{"type": "object", "properties": {"p": {"type": "string"}, "c": {"type": "integer"}}},
                                                       {"type": "object", "properties": {"q": {"type": "integer"}, "a": {"type": "string"}}, "required": ["q"]}]},
                                       "v": {"anyOf": [{"type": "object", "properties": {"p": {"type": "string"}}, "required": ["p"]},
